@@ -86,7 +86,7 @@ def mirror_table(rep, F, fn, sink_pat, rule='R-SIGN'):
 
 def sign_and_ctx_rules(rep, F, fns, sink_pat=None):
     E = engine(F)
-    n1 = R.ctx_honoured(rep, F, E, fns)
+    n1 = R.ctx_honoured(rep, F, E, fns, allow_mirror=sink_pat is not None)
     n2 = R.mode_pair_honoured(rep, F, E, fns)
     n3 = S.sign_sinks(rep, F, E, fns)
     before = len(rep.obs)
